@@ -64,7 +64,8 @@ type threads struct {
 type mutexState struct {
 	writer  *thread
 	readers map[*thread]int
-	vc      vclock
+	vc      vclock // released by Unlock (writers); acquired by Lock and RLock
+	rvc     vclock // released by RUnlock (readers); acquired by Lock only - readers do not synchronise with each other
 	site    string
 }
 
@@ -363,6 +364,7 @@ func (e *Engine) mutexLock(p *Value, write bool) {
 	}
 	if write {
 		m.writer = t
+		t.vc.join(&m.rvc)
 	} else {
 		m.readers[t]++
 	}
@@ -394,7 +396,11 @@ func (e *Engine) mutexUnlock(p *Value, write bool) {
 		}
 	}
 	cur := e.th.cur
-	m.vc.join(&cur.vc)
+	if write {
+		m.vc.join(&cur.vc)
+	} else {
+		m.rvc.join(&cur.vc)
+	}
 	cur.vc[cur.id]++
 }
 
